@@ -19,7 +19,7 @@ white-space, LZW code size, predictor 10, encoders with a predictor); the behavi
 | `divmod`, `a85`, `base85_chunk`, `encode_85`             | `base85Chunk`, `encode85`, `encode85Go`   |
 | `run_length_decode`                                      | `runLengthDecode`, `runLengthLoop`        |
 | `PredictorType::from_u8`                                 | `predictorOfU8`                           |
-| `filter_paeth` (i16 arithmetic, cannot overflow)         | `filterPaeth`                             |
+| `filter_paeth` (every operation in `i16`, `wrap16`)       | `filterPaeth`                             |
 | `unfilter` (asserts, `bpp > len` early return, five loops) | `unfilter`                              |
 | `predictor_geometry`                                     | `predictorGeometry`                       |
 | `unpredict` (PNG row loop with its offsets and slices)   | `unpredict`, `pngLoop`                    |
@@ -39,8 +39,9 @@ the encoder relation of `Spec/Lzw.lean` by `c16.lzw.encode`.
 Conventions: a Rust `Err(_)` is `.err`, a panic is `.panic`; loops that are not structurally recursive
 take fuel and end in `.oof` when it runs out (`Lemmas/Enc*.lean` prove that the fuel handed out by the
 entry points always suffices). Index operations that are guarded by an `assert_eq!` a few lines earlier
-(`unfilter`) or by the sample count (`tiff_unpredict`) are written with `getD`; the guard itself is the
-explicit `.panic` branch.
+(`unfilter`) are written with `getD`; the guard itself is the explicit `.panic` branch. `tiff_unpredict`'s
+`get`/`set` are written with the total `getD`/`List.set` as well, but there no guard is a `.panic` branch: that
+its indices stay inside the row is the separate theorem `tiff_indices_in_range` (`Props/C05.lean`).
 -/
 
 namespace Enc
@@ -238,15 +239,20 @@ def predictorOfU8 (n : UInt8) : Option PredictorType :=
   else if n = 4 then some .paeth
   else none
 
-/-- `filter_paeth`; all intermediate values lie in [-510, 765], far inside `i16` -/
+/-- two's-complement wrap of an `i16` result (with overflow checks on, leaving the range is a panic instead;
+    `paeth_in_i16` in `Props/C05.lean` proves that no intermediate value of `filter_paeth` leaves it) -/
+def wrap16 (x : Int) : Int := (x + 32768) % 65536 - 32768
+
+/-- `filter_paeth`, operation by operation in `i16` as the Rust code computes it:
+    `p = ia + ib - ic; pa = (p - ia).abs(); pb = (p - ib).abs(); pc = (p - ic).abs()` -/
 def filterPaeth (a b c : UInt8) : UInt8 :=
   let ia : Int := a.toNat
   let ib : Int := b.toNat
   let ic : Int := c.toNat
-  let p := ia + ib - ic
-  let pa := (p - ia).natAbs
-  let pb := (p - ib).natAbs
-  let pc := (p - ic).natAbs
+  let p := wrap16 (wrap16 (ia + ib) - ic)
+  let pa := wrap16 (wrap16 (p - ia)).natAbs
+  let pb := wrap16 (wrap16 (p - ib)).natAbs
+  let pc := wrap16 (wrap16 (p - ic)).natAbs
   if pa ≤ pb ∧ pa ≤ pc then a
   else if pb ≤ pc then b
   else c
